@@ -1,6 +1,7 @@
 """Decoder totality: NO-RECURSION, ALLOC-TAINT (C06)."""
 from lzlint.framework import rule
-from lzlint.core import (Prov, Callee, callee_of, strip_generics, last_seg, expr_walk, expr_str, op_local, op_place)
+from lzlint.core import (Prov, Callee, callee_of, strip_generics, last_seg, expr_walk, expr_str, op_local, op_place,
+                         guards_of, norm_cmp)
 
 # function key -> (depth bound, reason). One symbol, one reason.
 RECURSION_EXCEPTIONS = {
@@ -440,3 +441,75 @@ def bounds(ctx):
                           'stream can make the decoder panic with an out-of-bounds index' % (expr_str(idx)[:60], ln, r, where))
     if n == 0:
         ctx.anchor_missing('constant-length bounds checks in decoder-reachable code')
+
+
+# --------------------------------------------------------------------------- RANGE-ORDER
+
+@rule('RANGE-ORDER', ['C06'], floor=20)
+def range_order(ctx):
+    """A two-sided range `a..b` used to slice (Index/IndexMut/copy_within) panics when a > b ("slice index starts
+    at X but ends at Y") whatever the length of the slice is. On the decoding side (everything outside src/enc and
+    the LZ encoder) every such range must be ordered by construction: a is the constant 0, or b is `a + n`, or
+    both come from constant tables with a[k] <= b[k] for all k, or a comparison `a <= b` / `a < b` guards the
+    slicing. Anything else is an index pair whose order depends on input bytes."""
+    F = ctx.facts
+    n = 0
+    for f in F.fns:
+        if f.file.startswith('src/enc/') or f.file == 'src/lz/lz_encoder.rs' or f.file.startswith('src/lz/') and 'encoder' in f.file:
+            continue
+        prov = None
+        cnt = {}
+        for bi, t, c in f.calls():
+            if c.name not in ('index', 'index_mut', 'copy_within', 'get', 'get_mut', 'get_unchecked', 'get_unchecked_mut'):
+                continue
+            targs = c.d.get('args', [])
+            if not any('ops::Range<' in x for x in targs) or len(t['args']) < 2:
+                continue
+            prov = prov or Prov(f)
+            e = prov.operand(t['args'][1], 0, '%d:T' % bi)
+            while e[0] in ('ref', 'deref', 'cast'):
+                e = e[-1] if e[0] == 'cast' else e[1]
+            n += 1
+            base = '%s:range-ordered' % (f.key if f.kind != 'closure' else f.npath)
+            cnt[base] = cnt.get(base, 0) + 1
+            key = base if cnt[base] == 1 else '%s#%d' % (base, cnt[base])
+            if not (e[0] == 'agg' and str(e[1]).endswith('Range::Range') and len(e[2]) == 2):
+                ctx.violation(key, f.loc(bi), 'range operand is not built at the slicing site (%s): order of its ends not decided (fail closed)' % expr_str(e)[:80])
+                continue
+            a, b = e[2]
+            sa, sb = expr_str(a), expr_str(b)
+            why = None
+            if a[0] == 'const' and a[2] == 0:
+                why = 'starts at the constant 0'
+            if why is None:
+                bb = b
+                if bb[0] == 'field' and isinstance(bb[1], tuple) and bb[1][0] == 'bin' and bb[1][1] == 'AddWithOverflow' and str(bb[2]) == '0':
+                    bb = ('bin', 'Add', bb[1][2], bb[1][3])
+                if bb[0] == 'bin' and bb[1] == 'Add' and sa in (expr_str(bb[2]), expr_str(bb[3])):
+                    why = 'end is start + n (that the addition cannot wrap is INT-OVF\'s obligation)'
+            if why is None and a[0] == 'index' and b[0] == 'index':
+                ta, tb = const_tuple(a[1]), const_tuple(b[1])
+                if ta and tb and len(ta) == len(tb) and expr_str(a[2]) == expr_str(b[2]) and all(x <= y for x, y in zip(ta, tb)):
+                    why = 'both ends come from constant tables with start[k] <= end[k] for all %d k' % len(ta)
+            if why is None:
+                for sblk, pol, cond in guards_of(f, bi, prov):
+                    nc = norm_cmp(cond, pol) if cond[0] in ('bin', 'un') else None
+                    if nc and nc[0] in ('Lt', 'Le') and expr_str(nc[1]) == sa and expr_str(nc[2]) == sb:
+                        why = 'guarded by %s %s %s' % (sa[:40], nc[0], sb[:40])
+                        break
+            if why:
+                ctx.ok(key, f.loc(bi), '%s..%s: %s' % (sa[:50], sb[:50], why))
+            else:
+                ctx.violation(key, f.loc(bi), 'slice range %s..%s: nothing orders its ends (no `start <= end` guard, end is not start + n): '
+                              'when start > end the slicing panics ("slice index starts at .. but ends at ..") - on the decoding side '
+                              'both derive from input' % (sa[:70], sb[:70]))
+    if not n:
+        ctx.anchor_missing('two-sided range slicing on the decoding side')
+
+
+def const_tuple(e):
+    while isinstance(e, tuple) and e[0] in ('ref', 'deref', 'cast'):
+        e = e[-1] if e[0] == 'cast' else e[1]
+    if isinstance(e, tuple) and e[0] == 'const' and isinstance(e[2], tuple) and all(isinstance(x, int) for x in e[2]):
+        return e[2]
+    return None
